@@ -219,19 +219,7 @@ impl<'a> YamlEmitter<'a> {
         match *node {
             Yaml::Sequence(ref v) => self.emit_sequence(v),
             Yaml::Mapping(ref h) => self.emit_mapping(h),
-            Yaml::Value(Scalar::String(ref v)) => {
-                if self.multiline_strings
-                    && v.contains('\n')
-                    && char_traits::is_valid_literal_block_scalar(v)
-                {
-                    self.emit_literal_block(v)?;
-                } else if need_quotes(v) {
-                    escape_str(self.writer, v)?;
-                } else {
-                    write!(self.writer, "{v}")?;
-                }
-                Ok(())
-            }
+            Yaml::Value(Scalar::String(ref v)) => self.emit_string(v, true),
             Yaml::Value(Scalar::Boolean(v)) => {
                 if v {
                     self.writer.write_str("true")?;
@@ -310,6 +298,25 @@ impl<'a> YamlEmitter<'a> {
         Ok(())
     }
 
+    /// Emit a string: as a literal block if enabled, allowed and possible, else quoted if needed.
+    ///
+    /// `block_allowed` is false for mapping keys: an implicit key cannot be a block scalar.
+    fn emit_string(&mut self, v: &str, block_allowed: bool) -> EmitResult {
+        if self.multiline_strings
+            && block_allowed
+            && v.contains('\n')
+            && char_traits::is_valid_literal_block_scalar(v)
+            && fits_literal_block(v)
+        {
+            self.emit_literal_block(v)?;
+        } else if need_quotes(v) {
+            escape_str(self.writer, v)?;
+        } else {
+            write!(self.writer, "{v}")?;
+        }
+        Ok(())
+    }
+
     fn emit_sequence(&mut self, v: &[Yaml]) -> EmitResult {
         if v.is_empty() {
             write!(self.writer, "[]")?;
@@ -347,7 +354,11 @@ impl<'a> YamlEmitter<'a> {
                     write!(self.writer, ":")?;
                     self.emit_val(true, v)?;
                 } else {
-                    self.emit_node(k)?;
+                    if let Yaml::Value(Scalar::String(ref key)) = *k {
+                        self.emit_string(key, false)?;
+                    } else {
+                        self.emit_node(k)?;
+                    }
                     write!(self.writer, ":")?;
                     self.emit_val(false, v)?;
                 }
@@ -391,6 +402,23 @@ impl<'a> YamlEmitter<'a> {
             }
         }
     }
+}
+
+/// Check if [`YamlEmitter::emit_literal_block`] represents the string faithfully.
+///
+/// The block is written with a bare `|` or `|-` header (no indentation indicator, no `|+`) and,
+/// at the top level, without any indentation.
+fn fits_literal_block(string: &str) -> bool {
+    // The indentation is detected from the first line, which must thus be neither empty nor
+    // start with a blank.
+    !string.starts_with(|c: char| matches!(c, ' ' | '\t' | '\n'))
+        // `|` keeps one trailing line break, `|-` none.
+        && !string.ends_with("\n\n")
+        // Written at column 0, these lines would be document markers.
+        && !string.lines().any(|line| {
+            (line.starts_with("---") || line.starts_with("..."))
+                && matches!(line.as_bytes().get(3), None | Some(b' ' | b'\t'))
+        })
 }
 
 /// Check if the string requires quoting.
